@@ -94,6 +94,11 @@ theorem pump_deliveries (fuel : Nat) (s : St) :
           obtain ⟨D, h1, h2, h3, h4, h5⟩ := ih { s with held := none }
           exact ⟨D, h1, h2, h3, h4, fun _ => hl⟩
         · rw [if_neg hk]
+          by_cases hbad : k ∈ s.undecodable
+          · rw [if_pos hbad]
+            obtain ⟨D, h1, h2, h3, h4, _⟩ := ih { s with held := none, dropped := s.dropped ++ [(k, b)] }
+            exact ⟨D, h1, h2, h3, h4, fun _ => hl⟩
+          rw [if_neg hbad]
           by_cases hup : s.up = true
           · rw [if_pos hup]
             obtain ⟨D, h1, h2, h3, h4, _⟩ :=
@@ -207,21 +212,22 @@ theorem run_deliveries (s : St) (seg : List Op)
 structure Keep (s t : St) : Prop where
   mr : t.maxRetries = s.maxRetries
   dropped : t.dropped = s.dropped
+  und : t.undecodable = s.undecodable
 
-theorem Keep.rfl' (s : St) : Keep s s := ⟨rfl, rfl⟩
+theorem Keep.rfl' (s : St) : Keep s s := ⟨rfl, rfl, rfl⟩
 theorem Keep.trans' {a b c : St} (h2 : Keep b c) (h1 : Keep a b) : Keep a c :=
-  ⟨h2.mr.trans h1.mr, h2.dropped.trans h1.dropped⟩
+  ⟨h2.mr.trans h1.mr, h2.dropped.trans h1.dropped, h2.und.trans h1.und⟩
 
 theorem keep_flush (s : St) : Keep s (flushBatcher s) := by
   unfold flushBatcher
-  cases s.batcher <;> exact ⟨rfl, rfl⟩
+  cases s.batcher <;> exact ⟨rfl, rfl, rfl⟩
 
 theorem keep_feed (s : St) (g : Group) : Keep s (feedGroup s g) := by
   unfold feedGroup
   split
   · exact Keep.rfl' s
   · simp only
-    split <;> exact ⟨rfl, rfl⟩
+    split <;> exact ⟨rfl, rfl, rfl⟩
 
 theorem keep_foldl_feed (s : St) (gs : List Group) : Keep s (gs.foldl feedGroup s) := by
   induction gs generalizing s with
@@ -230,7 +236,7 @@ theorem keep_foldl_feed (s : St) (gs : List Group) : Keep s (gs.foldl feedGroup 
 
 theorem keep_applyEntry (s : St) (e : Entry) : Keep s (applyEntry s e) := by
   unfold applyEntry
-  exact Keep.trans' (keep_foldl_feed _ _) ⟨rfl, rfl⟩
+  exact Keep.trans' (keep_foldl_feed _ _) ⟨rfl, rfl, rfl⟩
 
 theorem keep_foldl_applyEntry (L : List Entry) (s : St) : Keep s (L.foldl applyEntry s) := by
   induction L generalizing s with
@@ -239,7 +245,7 @@ theorem keep_foldl_applyEntry (L : List Entry) (s : St) : Keep s (L.foldl applyE
 
 theorem keep_followerHwm (s : St) (n : Nat) : Keep s (followerHwm s n) := by
   unfold followerHwm
-  split <;> exact ⟨rfl, rfl⟩
+  split <;> exact ⟨rfl, rfl, rfl⟩
 
 theorem keep_foldl_followerHwm (l : List Nat) (s : St) : Keep s (l.foldl followerHwm s) := by
   induction l generalizing s with
@@ -249,9 +255,16 @@ theorem keep_foldl_followerHwm (l : List Nat) (s : St) : Keep s (l.foldl followe
 theorem keep_offerHwm (s : St) (n : Nat) : Keep s (offerHwm s n) := by
   unfold offerHwm
   split
-  · split <;> exact ⟨rfl, rfl⟩
+  · split <;> exact ⟨rfl, rfl, rfl⟩
   · exact keep_followerHwm s n
 
+@[simp] theorem flush_und (s : St) : (flushBatcher s).undecodable = s.undecodable := (keep_flush s).und
+@[simp] theorem applyEntry_und (s : St) (e : Entry) : (applyEntry s e).undecodable = s.undecodable := (keep_applyEntry s e).und
+@[simp] theorem foldl_applyEntry_und (L : List Entry) (s : St) : (L.foldl applyEntry s).undecodable = s.undecodable :=
+  (keep_foldl_applyEntry L s).und
+@[simp] theorem foldl_followerHwm_und (l : List Nat) (s : St) : (l.foldl followerHwm s).undecodable = s.undecodable :=
+  (keep_foldl_followerHwm l s).und
+@[simp] theorem offerHwm_und (s : St) (n : Nat) : (offerHwm s n).undecodable = s.undecodable := (keep_offerHwm s n).und
 @[simp] theorem flush_mr (s : St) : (flushBatcher s).maxRetries = s.maxRetries := (keep_flush s).mr
 @[simp] theorem flush_dr (s : St) : (flushBatcher s).dropped = s.dropped := (keep_flush s).dropped
 @[simp] theorem applyEntry_mr (s : St) (e : Entry) : (applyEntry s e).maxRetries = s.maxRetries := (keep_applyEntry s e).mr
@@ -271,8 +284,10 @@ theorem keep_stepCore (s : St) (op : Op) : Keep s (stepCore s op) := by
   constructor
   · cases op <;> simp only [stepCore] <;> (repeat' split) <;> simp
   · cases op <;> simp only [stepCore] <;> (repeat' split) <;> simp
+  · cases op <;> simp only [stepCore] <;> (repeat' split) <;> simp
 
-theorem pump_no_drop (fuel : Nat) (s : St) (h : s.maxRetries = 0) : Keep s (pump fuel s) := by
+theorem pump_no_drop (fuel : Nat) (s : St) (h : s.maxRetries = 0) (hu : s.undecodable = []) :
+    Keep s (pump fuel s) := by
   induction fuel generalizing s with
   | zero => exact Keep.rfl' s
   | succ fuel ih =>
@@ -281,20 +296,23 @@ theorem pump_no_drop (fuel : Nat) (s : St) (h : s.maxRetries = 0) : Keep s (pump
     · exact Keep.rfl' s
     · split
       · split
-        · exact Keep.trans' (ih _ h) ⟨rfl, rfl⟩
+        · exact Keep.trans' (ih _ h hu) ⟨rfl, rfl, rfl⟩
         · split
-          · exact Keep.trans' (ih _ h) ⟨rfl, rfl⟩
+          · rename_i hbad; rw [hu] at hbad; exact absurd hbad (by simp)
           · split
-            · rename_i hmr; exact absurd h hmr
-            · exact Keep.rfl' s
+            · exact Keep.trans' (ih _ h hu) ⟨rfl, rfl, rfl⟩
+            · split
+              · rename_i hmr; exact absurd h hmr
+              · exact Keep.rfl' s
       · split
         · exact Keep.rfl' s
         · split
-          · exact Keep.trans' (ih _ h) ⟨rfl, rfl⟩
-          · exact Keep.trans' (ih _ h) ⟨rfl, rfl⟩
+          · exact Keep.trans' (ih _ h hu) ⟨rfl, rfl, rfl⟩
+          · exact Keep.trans' (ih _ h hu) ⟨rfl, rfl, rfl⟩
 
-/-- with `transmitMaxRetries` unset no event is ever given up on -/
-theorem run_no_drop (s : St) (ops : List Op) (h : s.maxRetries = 0) (hd : s.dropped = []) :
+/-- with `transmitMaxRetries` unset and every stored item decodable no event is ever given up on -/
+theorem run_no_drop (s : St) (ops : List Op) (h : s.maxRetries = 0) (hd : s.dropped = [])
+    (hu : s.undecodable = []) :
     (run s ops).dropped = [] ∧ (run s ops).maxRetries = 0 := by
   induction ops generalizing s with
   | nil => exact ⟨hd, h⟩
@@ -302,10 +320,12 @@ theorem run_no_drop (s : St) (ops : List Op) (h : s.maxRetries = 0) (hd : s.drop
     unfold run
     have k1 := keep_stepCore s op
     have k2 := pump_no_drop (2 * (stepCore s op).fifo.items.length + 2) (stepCore s op) (by rw [k1.mr]; exact h)
+      (by rw [k1.und]; exact hu)
     have hs : stepOp s op = pump (2 * (stepCore s op).fifo.items.length + 2) (stepCore s op) := rfl
     apply ih
     · rw [hs, k2.mr, k1.mr]; exact h
     · rw [hs, k2.dropped, k1.dropped]; exact hd
+    · rw [hs, k2.und, k1.und]; exact hu
 
 /-! ### the ghost `maxIn` is exactly the highest HWM announced by another node -/
 
